@@ -416,7 +416,8 @@ def run_shard(spec):
                 typed_offsets = set(o for (t, o) in cands if t == q or q.startswith(t)) | chain_offsets(parsed, fail.path)
                 is_typed_text = rep_q == q or q.startswith(rep_q)
                 m = "other"
-                if rep_off in typed_offsets and not is_typed_text:
+                names_a_correct_text = any(rep_q == t for (t, o) in cands)
+                if rep_off in typed_offsets and not is_typed_text and names_a_correct_text:
                     m = "offset is that of the outermost as-typed text, named query is a re-encoded prefix or nested link text"
                 viol(case, "position", "reported position does not point at the failing action in the named query [%s]" % m,
                      "reported (%r, %r); failing path %r; acceptable %r" % (rep_q, rep_off, fail.path, sorted(cands)[:6]))
